@@ -60,8 +60,19 @@ def main(argv=None):
     except replay.ReplayError as e:
         print('INCONCLUSIVE: ' + str(e)[:2000]); return 2
     results = []
-    with mp.Pool(min(args.jobs, max(1, len(jobs)))) as pool:
-        for r in pool.imap_unordered(_worker, jobs):
+    # a worker that dies (killed for memory, crashed interpreter) must end the check as inconclusive, never hang it
+    from concurrent.futures import ProcessPoolExecutor, as_completed
+    from concurrent.futures.process import BrokenProcessPool
+    with ProcessPoolExecutor(max_workers=min(args.jobs, max(1, len(jobs)))) as pool:
+        futs = {pool.submit(_worker, j): j for j in jobs}
+        for f in as_completed(futs):
+            try:
+                r = f.result()
+            except BrokenProcessPool:
+                r = {'family': futs[f]['name'], 'ok': False, 'violations': [], 'known': [], 'wall_s': round(time.time() - t0, 2),
+                     'inconclusive': 'a worker process died (out of memory?) before this family reported'}
+            except Exception as e:
+                r = {'family': futs[f]['name'], 'ok': False, 'violations': [], 'known': [], 'wall_s': round(time.time() - t0, 2), 'inconclusive': f'{type(e).__name__}: {e}'[:300]}
             results.append(r)
             tag = 'ok' if r['ok'] and not r['violations'] else ('VIOL' if r['violations'] else 'INCONCLUSIVE')
             print(f"  [{tag}] {r['family']}: {r.get('summary', r.get('inconclusive'))} ({r['wall_s']} s)", flush=True)
